@@ -347,6 +347,18 @@ pub fn build_world(sc: &Scenario, backend: Bk) -> Result<World, GenError> {
         }
     }
     w.secrets.push(("image_key".into(), vec![8u8; 32]));
+    // the image key / upload seed in force in every node of the history (image commits change them)
+    for n in w.nodes.values() {
+        if let Ok(ext) = serde_json::from_str::<serde_json::Value>(&n.core.ext) {
+            for f in ["image_key", "image_upload_key"] {
+                if let Some(b) = ext[f].as_str().and_then(|h| hex::decode(h).ok()) {
+                    if b.len() >= 16 && seen.insert(format!("{f}:{}", hx(&b))) && b != vec![8u8; 32] {
+                        w.secrets.push((f.to_string(), b));
+                    }
+                }
+            }
+        }
+    }
     while w.welcome_kinds.len() < w.welcomes.len() {
         w.welcome_kinds.push("original".into());
     }
